@@ -523,6 +523,39 @@ def mqtt_effect(gw, given):
         sub.calls.clear()
     if not (subs and all(a[0].startswith(inp + "/") for a, _ in subs)):
         return f"in_prefix={inp!r} not used for the subscriptions {[a[0] for a, _ in subs]}"
+    # the prefixes also act on what is subscribed LATER, when a child is presented - also when another MQTT
+    # gateway object with other prefixes was created in the meantime
+    _LATER[0] += 1
+    if _LATER[0] % 5:              # every fifth MQTT construction (the probe builds a second gateway)
+        return _mqtt_rest(given, pubs, outp, inp, handed)
+    dpub, dsub = Stub("decoy-pub"), Stub("decoy-sub")
+    try:
+        type(gw)(dpub, dsub, in_prefix="decoy-in", out_prefix="decoy-out", protocol_version=gw.protocol_version)
+        known = set(gw.sensors)
+        for topic, pl in ((inp + "/77/255/0/0/17", "2.2"), (inp + "/77/3/0/0/6", "")):
+            tr.recv(topic, pl, 0)
+            while getattr(gw.tasks, "queue", None):
+                tr.send(gw.tasks.run_job())
+        later = [a[0] for a, _ in sub.calls]
+        for n in set(gw.sensors) - known:
+            del gw.sensors[n]
+    except Exception as exc:
+        return f"MQTT presentation probe raised {type(exc).__name__}: {exc}"
+    finally:
+        pub.calls.clear()
+        sub.calls.clear()
+    if dsub.calls or dpub.calls:
+        return (f"in_prefix={inp!r}: a child presented to this gateway was subscribed through ANOTHER gateway object: "
+                f"{[a[0] for a, _ in dsub.calls][:3]}")
+    if inp + "/77/3/1/+/+" not in later:
+        return f"in_prefix={inp!r} not used for the topics of a child presented later: {later}"
+    return _mqtt_rest(given, pubs, outp, inp, handed)
+
+
+_LATER = [0]
+
+
+def _mqtt_rest(given, pubs, outp, inp, handed):
     if [h.strip() for h in handed] != ["1;255;3;0;6;0"]:
         return f"in_prefix={inp!r}: a message received on topic {inp + '/1/255/3/0/6'!r} reached the gateway as {handed}"
     if not (len(pubs) == 1 and pubs[0][0][0] == outp + "/1/255/3/0/6" and pubs[0][0][1] == "M"):
